@@ -667,6 +667,19 @@ def r_search_state_and_identity(r, prog):
             r.ok('%s::check_for_cycles scans its fields on every path (no exit before the scan)' % adt)
         else:
             r.finding('candidate-exit-before-scan:%s' % adt, f.span, '%s::check_for_cycles can return without scanning the fields of the type: cycles through such a type are never found' % adt)
+    # (b2) a cycle that was found is reported unless the very same cycle was reported before: the report is behind the insert into
+    # reported_cycles and nothing else (no cap on the number of reports, no other filter - every type on a cycle must be named by one)
+    for fn_name, extra in (('report_cycle_error', r'^next\(into_iter\(arg1\.dependency_stack\)\) is None$'), ('check_interface_for_inheritance_cycles', r'^find_inheritance_path\(')):
+        g_ = prog.fn(CDT + fn_name)
+        ps = [c for c in g_.calls() if c.name() == 'push_into' and not g_.blocks[c.bb].get('cleanup')]
+        if len(ps) != 1:
+            raise AnchorMissing('the report in %s' % fn_name)
+        gs = guards.guard_set(prog, g_, ps[0].bb)
+        rest = [x for x in gs if not re.match(r'^insert\(arg1\.reported_cycles,', x) and not re.match(extra, x)]
+        if [x for x in gs if re.match(r'^insert\(arg1\.reported_cycles,', x)] and not rest:
+            r.ok('%s: a cycle that was found is reported unless the same cycle was reported before' % fn_name)
+        else:
+            r.finding('cycle-report-suppressed:%s' % fn_name, ps[0].span, '%s reports a cycle only when %s: cycles are left unreported for another reason than having been reported already, so a type on such a cycle may be named by no error' % (fn_name, rest or gs))
     # (c) identity of a cycle: module-scoped identifiers
     rc = prog.fn(CDT + 'report_cycle_error')
     ins = [c for c in rc.calls() if c.name() == 'insert' and 'reported_cycles' in vexpr(rc, c.args[0]) and not rc.blocks[c.bb].get('cleanup')]
